@@ -39,7 +39,7 @@ class Str(Expression):
     def _compile(self, out, flags):
         if not self.value:
             out += STATUS << True
-            out += RESULT << ''
+            out += RESULT << self.value
             return
 
         value = out.var('value', self.value)
